@@ -1,5 +1,5 @@
 """C11: atan odd, within 5e-5 and within [-fixpidiv2, fixpidiv2]; atan2 axis values, quadrant signs, and within 8e-5 by composition
-(decided). Near-monotonicity is not decided."""
+and near-monotonicity: every clause decided."""
 from . import common, lib
 from .lib import M, FIN, E, sym
 from .c09 import const_of
@@ -91,9 +91,24 @@ def run(tier, seed):
             "(truncation of q, atan is 1-Lipschitz) + |phi - 65536 pi| < 8e-5*65536. |atan(x)| <= fixpidiv2: every non-constant path returns "
             "atanc + S(q) with S the series detail::atan<16> (abstract re-execution on the quotient symbol), 0 <= q <= Q from the linear forms of "
             "numerator and denominator (N - (Q+1) D < 0 over the path state), and atanc + S(t) lies in [0, fixpidiv2] for every integer t <= Q "
-            "(interval evaluation on bisected cells of t, down to constant propagation); negative x by oddness. NOT DECIDED: x <= y => "
-            "atan x <= atan y + 2 ulp.")
-    return V.finish("other", expl, "./fx check C11 --tier %s" % tier, extra={"configs": configs})
+            "(interval evaluation on bisected cells of t, down to constant propagation); negative x by oddness. x <= y => atan(x) <= atan(y) + 2: from the accuracy cells, "
+            "for x in cell i and y in a later cell j, atan(x) - atan(y) <= [v(b_i) + E_i + s_i] - [v(a_j) - E_j - s_j] with exact rational point "
+            "values of the idealised expressions at the cell ends, rounding budgets E and s the possible decrease inside a cell from the "
+            "derivative enclosure; the 32 arguments at either end of every segment enter with their exact results (constant propagation); "
+            "the bound stays below 3, hence <= 2 for integers; negative arguments by oddness and atan(x) >= 0 for x >= 0. The accuracy and "
+            "monotonicity cells are computed for the first configuration in the quick tier (C08 proves the c++17 and c++20 summaries equal) and "
+            "for both in the thorough tier. Every clause of C11 is decided.")
+    return V.finish("proof", expl, "./fx check C11 --tier %s" % tier, extra={"configs": configs})
+
+
+def re_cell(text):
+    import re
+    m = re.findall(r"\[(\d+),(\d+)\]", text)
+    if not m:
+        return None
+    if len(m) == 1:
+        return (int(m[0][0]), int(m[0][1]), int(m[0][0]), int(m[0][1]))
+    return (int(m[0][0]), int(m[0][1]), int(m[1][0]), int(m[1][1]))
 
 
 # ------------------------------------------------------------------ atan accuracy, cell by cell
@@ -117,7 +132,9 @@ def atan_accuracy(V, ctx, cfg, pd2, fine=False):
     A = Fraction(5, 100000) * 65536          # 5e-5 in raw units
 
     def adapt(a):
-        return max(64, a >> (9 if fine else 8))
+        # relative cell width 2^-8 (2^-9 in the flat tail and in the thorough tier): the possible decrease of the idealised value
+        # inside a cell, which the near-monotonicity bound pays for, shrinks with the square of the relative width
+        return max(64, a >> (9 if fine or a >= (1 << 18) else 8))
 
     def bound(a, b):
         return A
@@ -147,15 +164,65 @@ def atan_accuracy(V, ctx, cfg, pd2, fine=False):
         else:
             work_box_hi = max(work_box_hi, hi)
     acc = [None, None]
-    fails, info = fxnum.prove_cells(V, r, atan_truth, bound, "atan accuracy 5e-5", "atan", box=(0, work_box_hi), adapt=adapt, min_cells=2000, rng_acc=acc)
+    cells = []
+    # the K arguments at either end of every segment are single-argument cells: their results are obtained exactly by constant
+    # propagation, so the near-monotonicity bound across a segment boundary does not pay the rounding budget twice
+    K = 32
+    ends_ = sorted(set(e for p in r.paths for e in p.state.bounds["p0"] if e <= work_box_hi))
+
+    def adapt_k(a):
+        w = adapt(a)
+        for e in ends_:
+            if abs(a - e) <= K:
+                return 1
+            if a < e - K <= a + w - 1:
+                return e - K - a
+        return w
+    fails, info = fxnum.prove_cells(V, r, atan_truth, bound, "atan accuracy 5e-5", "atan", box=(0, work_box_hi), adapt=adapt_k, min_cells=2000,
+                                    rng_acc=acc, collect=cells)
+    from fxai import pipeline as P
+    exact = {}
+    for c_ in cells:
+        if c_["a"] == c_["b"] and c_["a"] not in exact:
+            rs = r.an.run(P.init_state(r.an.fn, [("i", c_["a"], c_["a"])]))
+            vals = set(lib.ret_rng(q) for q in rs.paths)
+            if len(vals) == 1 and not rs.alarms:
+                lo_, hi_ = next(iter(vals))
+                if lo_ == hi_:
+                    exact[c_["a"]] = lo_
+    info["exact_arguments_at_segment_ends"] = len(exact)
     info["result_enclosure"] = [float(acc[0]), float(acc[1])] if acc[0] is not None else None
-    info["pi_half_constant"] = pd2
-    # |atan(x)| never exceeds the library's pi/2 constant: decided when the enclosure of all cells stays below it
-    if acc[1] is not None and acc[1] <= pd2 and all(c[2] <= pd2 for c in consts):
-        V.oblige(True)
-        info["atan_le_pidiv2"] = "proved"
-    else:
-        info["atan_le_pidiv2"] = "not decided (enclosure reaches %.3f, constant %d)" % (float(acc[1]) if acc[1] is not None else -1, pd2)
+    # x <= y  =>  atan(x) <= atan(y) + 2 ulp: from the same cells (idealised value monotone inside a cell up to the derivative
+    # enclosure, exact point values at the cell ends, two-sided rounding budget)
+    try:
+        w = fxnum.near_monotone(cells, [(c[0], c[1], c[2]) for c in consts], 2, exact)
+        info["near_monotone"] = {"worst_bound_on_atan(x)-atan(y)": float(w[0]), "at": w[1], "needed": "< 3"}
+        ok = w[0] < 3
+        V.oblige(ok)
+        if not ok:
+            import random
+            rnd = random.Random(V.seed)
+            m_ = re_cell(w[1])
+            hit = None
+            if m_:
+                xs = sorted(set([m_[0], m_[1]] + [rnd.randint(m_[0], m_[1]) for _ in range(400)]))
+                ys = sorted(set([m_[2], m_[3]] + [rnd.randint(m_[2], m_[3]) for _ in range(400)]))
+                vx = [(x, r.conc((x,))) for x in xs]
+                vy = [(y, r.conc((y,))) for y in ys]
+                for x, ox in vx:
+                    for y, oy in vy:
+                        if x <= y and ox[0] == "ret" and oy[0] == "ret" and ox[1] > oy[1] + 2:
+                            hit = (x, y, ox[1], oy[1])
+                            break
+                    if hit:
+                        break
+            if hit:
+                V.violation("x <= y => atan(x) <= atan(y) + 2 ulp", "atan", "atan(%d) = %d but atan(%d) = %d [%s]" % (hit[0], hit[2], hit[1], hit[3], cfg),
+                            lib.rp(r, (hit[0],), "atan near-monotone: compare with atan(%d)" % hit[1]))
+            else:
+                V.inconc("atan near-monotonicity [%s]: bound %.3f on atan(x) - atan(y) for %s, needed < 3; no violating pair found" % (cfg, float(w[0]), w[1]))
+    except fxnum.Unsupported as e:
+        V.inconc("atan near-monotonicity [%s]: %s" % (cfg, e))
     fxnum.triage_fails(V, r, fails, point_ok, "|atan(x) - atan x| <= 5e-5", "atan")
     info["constant_tail"] = [[c[0], c[1], c[2]] for c in consts]
     return info
